@@ -14,7 +14,7 @@ Ltac locsolve s t Hl Hc Hm0 Hc0 Hu Hz :=
   generalize Hz; revert Hu Hm0 Hc0 Hc; unfold tinvc, eup, sinc_dead, subs_dead;
   generalize (msum s t), (csum s t); cbn -[Z.add Z.sub Z.opp]; rewrite ?Hl;
   destruct (tk (ctl s t)); destruct (wpc (ctl s t)); cbn -[Z.add Z.sub Z.opp];
-  intros ms cs Hu Hm0 Hc0 (H1&H2&H3&H4&H5&H6&H7&H8&H9) Hz';
+  intros ms cs Hu Hm0 Hc0 (H1&H2&H3&H4&H5&H6&H7&H8&H9) Hz'; try discriminate Hz';
   try solve [exfalso; clear - H8; intuition discriminate];
   try solve [exfalso; lia];
   splits; fin1.
@@ -60,4 +60,86 @@ Proof.
   - (* LJ *) injection Hs as <-. leadA s t Hi Ht Hl Hc Hm0 Hc0 Hu I.
   - (* LK *) injection Hs as <-. leadA s t Hi Ht Hl Hc Hm0 Hc0 Hu I.
   - (* LL *) injection Hs as <-. leadA s t Hi Ht Hl Hc Hm0 Hc0 Hu I.
+Qed.
+
+(* explicit new ctl / obj *)
+Ltac leadAx s t c' o' Hi Ht Hl Hc Hm0 Hc0 Hu Hz :=
+  eapply (shapeA s _ t c' o');
+  [ exact Hi | exact Ht | reflexivity | reflexivity | reflexivity
+  | ptwise t
+  | ptwise t
+  | locsolve s t Hl Hc Hm0 Hc0 Hu Hz
+  | reflexivity
+  | locsolve s t Hl Hc Hm0 Hc0 Hu Hz
+  | reflexivity
+  | locsolve s t Hl Hc Hm0 Hc0 Hu Hz ].
+
+Lemma lead_wx_inv s t s' : inv s -> (t < nt s)%nat ->
+  lpc (ctl s t) = LWx \/ lpc (ctl s t) = LWw ->
+  lead_step false s t = Some s' -> inv s'.
+Proof.
+  intros Hi Ht Hl0 Hs.
+  destruct (tinv_c _ _ (i_team _ Hi t Ht)) as [Hc _].
+  pose proof (msum_nonneg s t) as Hm0. pose proof (csum_nonneg s t) as Hc0.
+  pose proof (i_uaf _ Hi) as Hu.
+  unfold lead_step in Hs.
+  destruct Hl0 as [Hl|Hl]; rewrite Hl in Hs.
+  - injection Hs as <-.
+    leadAx s t (mkctl (tk (ctl s t)) LWw WNasc) (set_sinc (obj s t) (sinc (obj s t) + 1)) Hi Ht Hl Hc Hm0 Hc0 Hu I.
+  - destruct (wpc (ctl s t)) eqn:Hw; try discriminate; injection Hs as <-.
+    + leadA s t Hi Ht Hl Hc Hm0 Hc0 Hu Hw.
+    + leadA s t Hi Ht Hl Hc Hm0 Hc0 Hu Hw.
+    + leadA s t Hi Ht Hl Hc Hm0 Hc0 Hu Hw.
+Qed.
+
+Lemma lead_rel_inv s t : inv s -> (t < nt s)%nat -> lpc (ctl s t) = LNasc -> inv (set_lpc s t LReady).
+Proof.
+  intros Hi Ht Hl.
+  destruct (tinv_c _ _ (i_team _ Hi t Ht)) as [Hc _].
+  pose proof (msum_nonneg s t) as Hm0. pose proof (csum_nonneg s t) as Hc0.
+  pose proof (i_uaf _ Hi) as Hu.
+  leadAx s t (mkctl (tk (ctl s t)) LReady (wpc (ctl s t))) (obj s t) Hi Ht Hl Hc Hm0 Hc0 Hu I.
+Qed.
+
+(* watcher steps on its own team: the watcher pc is known, the leader pc is not *)
+Ltac wsolve s t Hw Hc Hm0 Hc0 Hu :=
+  revert Hu Hm0 Hc0 Hc; unfold tinvc, eup, sinc_dead, subs_dead;
+  generalize (msum s t), (csum s t); cbn -[Z.add Z.sub Z.opp]; rewrite ?Hw;
+  destruct (tk (ctl s t)); destruct (lpc (ctl s t)); cbn -[Z.add Z.sub Z.opp];
+  intros ms cs Hu Hm0 Hc0 (H1&H2&H3&H4&H5&H6&H7&H8&H9);
+  try solve [exfalso; clear - H8; intuition discriminate];
+  splits; fin1.
+
+Ltac watchAx s t c' o' Hi Ht Hw Hc Hm0 Hc0 Hu :=
+  eapply (shapeA s _ t c' o');
+  [ exact Hi | exact Ht | reflexivity | reflexivity | reflexivity
+  | ptwise t
+  | ptwise t
+  | wsolve s t Hw Hc Hm0 Hc0 Hu
+  | reflexivity
+  | intros; reflexivity
+  | reflexivity
+  | wsolve s t Hw Hc Hm0 Hc0 Hu ].
+
+Lemma watch_rel_inv s t : inv s -> (t < nt s)%nat -> wpc (ctl s t) = WNasc -> inv (set_wpc s t WReady).
+Proof.
+  intros Hi Ht Hw.
+  destruct (tinv_c _ _ (i_team _ Hi t Ht)) as [Hc _].
+  pose proof (msum_nonneg s t) as Hm0. pose proof (csum_nonneg s t) as Hc0.
+  pose proof (i_uaf _ Hi) as Hu.
+  watchAx s t (mkctl (tk (ctl s t)) (lpc (ctl s t)) WReady) (obj s t) Hi Ht Hw Hc Hm0 Hc0 Hu.
+Qed.
+
+Lemma watch_own_inv s t s' : inv s -> (t < nt s)%nat ->
+  wpc (ctl s t) = WReady \/ wpc (ctl s t) = WGot ->
+  watch_step s t = Some s' -> inv s'.
+Proof.
+  intros Hi Ht Hw0 Hs.
+  destruct (tinv_c _ _ (i_team _ Hi t Ht)) as [Hc _].
+  pose proof (msum_nonneg s t) as Hm0. pose proof (csum_nonneg s t) as Hc0.
+  pose proof (i_uaf _ Hi) as Hu.
+  unfold watch_step in Hs.
+  destruct Hw0 as [Hw|Hw]; rewrite Hw in Hs; injection Hs as <-.
+  - watchAx s t (mkctl (tk (ctl s t)) (lpc (ctl s t)) WStarted) (obj s t) Hi Ht Hw Hc Hm0 Hc0 Hu.
+  - watchAx s t (mkctl (tk (ctl s t)) (lpc (ctl s t)) WDone) (set_sinc (obj s t) (sinc (obj s t) - 1)) Hi Ht Hw Hc Hm0 Hc0 Hu.
 Qed.
